@@ -125,7 +125,7 @@ func checkC01(c *Ctx) {
 	checkPlatformSuffixes(c, "C01.R8.file-suffixes", gen)
 	checkStreamingFlag(c, gen)
 	c.Rule("C01.R10.conditional-decls", "an identifier of the generated code whose declarations are all conditional is used only under conditions that imply one of them", 5)
-	checkConditionalDecls(c, "C01.R10.conditional-decls", ev, []string{"serverMain", "serverServer", "serverBuilder", "serverConfigureapi", "serverOperation", "serverParameter", "serverResponses", "clientClient", "clientFacade", "clientParameter", "clientResponse", "cliMain", "cliCli"})
+	checkConditionalDecls(c, "C01.R10.conditional-decls", ev, ev.F.Names())
 
 	// ---- R9 code swallowed by a comment
 	c.Rule("C01.R9.commented-code", "no template text holding Go statement tokens (`:=`, `err != nil`, `if err`, `func (`, `); err`) is lexed inside a comment in any instantiation (whitespace trimming that glues code onto a comment line)", 1)
